@@ -89,7 +89,7 @@ def run(tier, replay=None):
     # retain on registries of REAL types (type parameters, shared children, built-in shapes)
     from checks import texprcommon as T
     cases = T.corpus(c, tier == "thorough", False)
-    tr = T.observe(c, cases, 70, 0, limit=None if tier == "thorough" else 6)
+    tr = T.observe(c, cases, 70, 0, limit=None)
     rt = os.path.join(c.wd, "retain_real.ndjson")
     def wf(r):     # the premise of C10: a well-formed input
         from checks.regcommon import refs_of
